@@ -328,7 +328,12 @@ def main():
     dinf = one(r"\"infinite\"\s*=>\s*\{\s*depth\s*=\s*([0-9_]+)\s*;", us, "infinite depth")
     margin = one(r"\(base_time\s*\+\s*increment\)\s*\.min\(time_left\.saturating_sub\(([0-9_]+)\)\)", us, "budget margin")
     skip = one(r"time_limit\s*=\s*self\.calculate_move_time\(parts,\s*i\)\s*;\s*i\s*\+=\s*([0-9_]+)\s*;", us, "clock skip")
-    t = HEADER.format(src="src/search.rs, src/killer_moves.rs, src/uci.rs")
+    fs = strip_comments(open(os.path.join(REPO, "src", "fen.rs")).read())
+    hm_ty = one(r"fn\s+parse_halfmove_clock\([^)]*\)\s*->\s*(u8|u16|u32|u64)", fs, "halfmove type")
+    fm_ty = one(r"fn\s+parse_fullmove_counter\([^)]*\)\s*->\s*(u8|u16|u32|u64)", fs, "fullmove type")
+    t = HEADER.format(src="src/search.rs, src/killer_moves.rs, src/uci.rs, src/fen.rs")
+    t += f"def FEN_HALFMOVE_BOUND : Nat := {1 << BITS[hm_ty]}\n"
+    t += f"def FEN_FULLMOVE_BOUND : Nat := {1 << BITS[fm_ty]}\n"
     t += f"def NEGATIVE_INFINITY : Int := {lean_int(NI)}\n"
     t += f"def INFINITY : Int := {lean_int(INF)}\n"
     t += f"def CHECKMATE_SCORE : Int := {lean_int(CM)}\n"
